@@ -93,7 +93,9 @@ class SnpFlow(Flow):
         s = St()
         # entry: an int parameter named like a result in helper functions is a raw unknown result
         for p in self.ctx.res_params.get(self.f.name, ()):
-            s.res[p] = (True, False, frozenset(), None)
+            # non-negative at entry iff every call site of the helper hands over a value it has proved non-negative
+            ent = self.ctx.helper_entry.get(self.f.name)
+            s.res[p] = (True, bool(ent) and all(ent.values()), frozenset(), None)
         return s
 
     def join(self, a, b):
@@ -217,6 +219,9 @@ class SnpFlow(Flow):
             rk = lv(a[h["res"]]) if h["res"] < len(a) else None
             self.site(c, n, "helper-advance")
             r = st.res.get(rk)
+            if self.recording:
+                # what this call site guarantees about the value handed over: the helper may rely on it (its own entry state)
+                self.ctx.helper_entry.setdefault(n.get("fn"), {})[(f.name, n["id"])] = bool(r and r[1])
             if r is None or not r[0]:
                 self.v(c, n, "value passed to %s is not the untruncated result of a producer on every path" % n.get("fn"))
             if pk is not None and sk is not None:
@@ -285,7 +290,9 @@ class SnpFlow(Flow):
                 need = (idx + 1) if idx is not None else None
                 if need is None or not any(st.lb.get(s, 0) >= need for s in sizes):
                     self.v(c, n, "store through buffer pointer %s at index %s is not dominated by a test that the remaining size exceeds it (sizes considered: %s)" % (bk, idx, sorted(sizes)))
-            return st
+                return st
+            # any other target written through a pointer (a helper's  *tmp += res;  *tmplen -= res;  *ret += res) is an ordinary
+            # lvalue for the rules below
         rk = lv(r) if r is not None else None
         # ---- result of a producer
         if op == "=" and r is not None and r["k"] == "Call" and self.producer_args(r) is not None:
@@ -395,6 +402,16 @@ class SnpFlow(Flow):
             if tk in st.unacc:
                 self.v("overwrite@%s#%d" % (tk, self.ctx.ordinal(f, n)), n, "result of the previous producer (%s) was overwritten before being added to the returned length" % st.unacc[tk])
                 st.unacc.pop(tk, None)
+            # a result variable overwritten by something else stays a candidate advance: nothing is proved about the new value
+            # (not the raw length, not non-negative, not below any size) until tests re-establish it.  `S - 1` is below S, and
+            # non-negative where S >= 1 is known.
+            if op == "=" and r is not None and not is_ptr and r["k"] == "Binary" and r["op"] == "-" and cval(r["c"][1]) == 1 and lv(r["c"][0]) in self.ctx.size_keys(f, self):
+                sk = lv(r["c"][0])
+                st.res[tk] = (False, st.lb.get(sk, 0) >= 1, frozenset(self.cls(st, sk)), None)
+                return st
+            if op == "=" and not is_ptr and not (rk is not None and rk in st.res):
+                st.res[tk] = (False, False, frozenset(), None)
+                return st
             del st.res[tk]
         if tk in st.halfP or tk in st.halfS:
             pass
@@ -487,6 +504,7 @@ class SnpRule(object):
         self.producers = dict(SEED_PRODUCERS)
         self.helpers = {}
         self.res_params = {}
+        self.helper_entry = {}
         self.res_vars = {}
         self._ord = {}
         self.like = {}
@@ -754,6 +772,15 @@ class SnpRule(object):
     def run(self, chk, rule="R-SNP"):
         n_prod = n_adv = n_funcs = 0
         self.helper_accumulates(chk, rule)
+        # callers first: what they guarantee about the values handed to cursor helpers is the helpers' entry state
+        for f in self.funcs:
+            if f.name in self.helpers or f.entry is None:
+                continue
+            if any(c.get("fn") in self.helpers for c in f.calls()):
+                SnpFlow(f, self).run()
+        for f in [g for g in self.funcs if g.name in self.helpers and g.entry is not None]:
+            if any(c.get("fn") in self.helpers for c in f.calls()):
+                SnpFlow(f, self).run()
         for f in self.funcs:
             relevant = bool(self.static_pairs.get(f.name)) or f.name in self.helpers or self.like.get(f.name)
             if not relevant:
